@@ -122,6 +122,21 @@ Definition num_of (v : option fval) : Z :=
   | _ => 0
   end.
 
+(* the one guard of the write tables that is no single-field test: Actor.MarshalJSON writes publicKey when the key has an
+   id, an owner or the key material (since the repair of "a key holding only its owner was not written"; the pinned tree
+   tested id and key material only: pubkey_guard_pinned) *)
+Definition pubkey_guard_src : bytes := B "len(a.PublicKey.PublicKeyPem)+len(a.PublicKey.ID)+len(a.PublicKey.Owner) > 0".
+Definition pubkey_guard (v : option fval) : bool :=
+  match v with
+  | Some (FPubKey id owner pem) => match id, owner, pem with [], [], [] => false | _, _, _ => true end
+  | _ => false
+  end.
+Definition pubkey_guard_pinned (v : option fval) : bool :=
+  match v with
+  | Some (FPubKey id _ pem) => match id, pem with [], [] => false | _, _ => true end
+  | _ => false
+  end.
+
 Definition eval_guard (fs : list (fid * fval)) (val_bytes : bytes) (g : wguard) : option bool :=
   match g with
   | GNeNil f => Some (g_ne_nil (getf f fs))
@@ -131,12 +146,7 @@ Definition eval_guard (fs : list (fid * fval)) (val_bytes : bytes) (g : wguard) 
   | GGt0 f => Some (0 <? num_of (getf f fs))
   | GValNonEmpty => Some (match val_bytes with [] => false | _ => true end)
   | GOther src =>
-      if bytes_eqb src (B "len(a.PublicKey.PublicKeyPem)+len(a.PublicKey.ID) > 0") then
-        Some (match getf F_PublicKey fs with
-              | Some (FPubKey id _ pem) => match id, pem with [], [] => false | _, _ => true end
-              | _ => false
-              end)
-      else None
+      if bytes_eqb src pubkey_guard_src then Some (pubkey_guard (getf F_PublicKey fs)) else None
   end.
 
 Fixpoint eval_guards (fs : list (fid * fval)) (val_bytes : bytes) (gs : list wguard) : option bool :=
